@@ -20,18 +20,18 @@ ASSUMPTIONS = [
     "bfgs/lbfgs: smooth objectives with their analytic gradient, objective_fn always given",
 ]
 STRATA = [
-    ("anneal", 2000, 20000),
-    ("tabu", 1500, 15000),
-    ("lns", 1500, 15000),
-    ("alns", 1500, 15000),
-    ("evolve", 1500, 15000),
-    ("de", 1200, 12000),
-    ("pso", 1200, 12000),
-    ("nelder-mead", 2400, 24000),
-    ("bayes", 150, 1500),
-    ("powell", 400, 4000),
-    ("bfgs", 800, 8000),
-    ("tsp", 900, 9000),
+    ("anneal", 2000, 40000),
+    ("tabu", 1500, 30000),
+    ("lns", 1500, 30000),
+    ("alns", 1500, 30000),
+    ("evolve", 1500, 30000),
+    ("de", 1200, 24000),
+    ("pso", 1200, 24000),
+    ("nelder-mead", 2400, 48000),
+    ("bayes", 150, 3000),
+    ("powell", 400, 8000),
+    ("bfgs", 800, 16000),
+    ("tsp", 900, 18000),
 ]
 REQUIRED_EVENTS = {"any": ["rel.objective-at-solution", "rel.best-of-evaluated", "rel.start-point", "rel.evaluations",
                            "rel.bounds", "rel.mirror", "rel.reproducible", "rel.objective-recompute",
